@@ -35,7 +35,7 @@ type GridCase struct {
 }
 
 var gridKinds = []string{"view", "view-raw", "diff", "copy", "sum", "sum-copy", "sum-diff", "generate"}
-var gridEnvs = []string{"none", "textout-unopenable", "textout-devfull", "src-missing", "src-corrupt", "dst-parent-is-file", "dst-exists", "dst-missing", "dst-method-7", "src-layout-mismatch"}
+var gridEnvs = []string{"none", "textout-unopenable", "textout-devfull", "src-missing", "src-corrupt", "dst-parent-is-file", "dst-exists", "dst-missing", "dst-method-7", "src-layout-mismatch", "src-dangling-symlink", "pattern-matches-nothing"}
 var gridTextOuts = []string{"none", "stdout", "file"}
 
 func gridArchSels(n int) []string {
@@ -84,7 +84,7 @@ var (
 	enumWindows  = []string{"default", "past", "future", "beyond-finest", "degenerate", "from-after-until", "beyond-1", "beyond-2", "beyond-3"}
 )
 
-const gridEnumSize = 8 * 7 * 9 * 10 * 3 * 2 * 2 * 2
+const gridEnumSize = 8 * 7 * 9 * 12 * 3 * 2 * 2 * 2
 
 // genEnumerated decodes run index idx into (world number, cell): the thorough
 // tier walks the whole grid for one seeded world after the other.
@@ -99,7 +99,7 @@ func genEnumerated(idx int) *GridCase {
 	c.Kind = gridKinds[take(8)]
 	c.ArchSel = enumArchSels[take(7)]
 	c.Window = enumWindows[take(9)]
-	c.EnvFault = gridEnvs[take(10)]
+	c.EnvFault = gridEnvs[take(12)]
 	c.TextOut = gridTextOuts[take(3)]
 	c.Remote = take(2) == 1
 	c.ViaParse = take(2) == 1
@@ -228,6 +228,9 @@ func (gridSim) Run(e *Env, ci interface{}) {
 		os.WriteFile(filepath.Join(e.Dir, "dst", "grp/it0/b.wsp"), b, 0o644)
 	}
 	cm := Cmd{Kind: c.Kind, Archive: c.archive(), ViaParse: c.ViaParse, CopyNaN: c.CopyNaN, Create: c.Layout, SrcRemote: c.Remote, Fill: true, RandMax: 10}
+	if c.SchedSeed%3 == 0 {
+		cm.RandMax = int(pick(newRng(c.SchedSeed), int64(30000), 1000000, 2000000000/(c.Layout.MaxStep()/c.Layout.Archs[0].S+1)))
+	}
 	c.applyWindow(&cm)
 	switch c.Kind {
 	case "view", "view-raw":
@@ -310,6 +313,26 @@ func (gridSim) Run(e *Env, ci interface{}) {
 			f.WriteAt([]byte{0, 0, 0, 7}, 0)
 			f.Close()
 		} else {
+			fault = "none"
+		}
+	case "src-dangling-symlink":
+		// the last source file of the item is a symbolic link to nowhere
+		if c.Kind != "sum" && c.Kind != "sum-copy" && c.Kind != "sum-diff" {
+			fault = "none"
+		} else {
+			p := filepath.Join(e.Dir, "src", "grp/it0/b.wsp")
+			os.Remove(p)
+			if os.Symlink(filepath.Join(e.Dir, "nowhere.wsp"), p) != nil {
+				fault = "none"
+			}
+		}
+	case "pattern-matches-nothing":
+		switch c.Kind {
+		case "diff", "copy":
+			cm.Src = "grp/it0/zz*.wsp"
+		case "sum", "sum-copy", "sum-diff":
+			cm.Item = "zz*"
+		default:
 			fault = "none"
 		}
 	case "src-layout-mismatch":
@@ -438,7 +461,7 @@ func (gridSim) Run(e *Env, ci interface{}) {
 			return
 		}
 	case "sum":
-		if fault == "src-missing" || fault == "src-corrupt" || fault == "src-layout-mismatch" {
+		if fault == "src-missing" || fault == "src-corrupt" || fault == "src-layout-mismatch" || fault == "src-dangling-symlink" || fault == "pattern-matches-nothing" {
 			silent("its source was %s", fault)
 			return
 		}
@@ -447,7 +470,7 @@ func (gridSim) Run(e *Env, ci interface{}) {
 			return
 		}
 	case "diff", "sum-diff":
-		if fault == "src-missing" || fault == "src-corrupt" || fault == "dst-missing" || fault == "dst-method-7" || fault == "src-layout-mismatch" {
+		if fault == "src-missing" || fault == "src-corrupt" || fault == "dst-missing" || fault == "dst-method-7" || fault == "src-layout-mismatch" || fault == "src-dangling-symlink" || fault == "pattern-matches-nothing" {
 			silent("an input was %s, so both inputs cannot have been compared", fault)
 			return
 		}
@@ -464,7 +487,7 @@ func (gridSim) Run(e *Env, ci interface{}) {
 			return
 		}
 	case "copy", "sum-copy":
-		if fault == "src-missing" || fault == "src-corrupt" || fault == "dst-parent-is-file" || fault == "dst-method-7" || fault == "src-layout-mismatch" {
+		if fault == "src-missing" || fault == "src-corrupt" || fault == "dst-parent-is-file" || fault == "dst-method-7" || fault == "src-layout-mismatch" || fault == "src-dangling-symlink" || fault == "pattern-matches-nothing" {
 			silent("its environment was %s", fault)
 			return
 		}
